@@ -11,7 +11,7 @@ FORMULAS = {
     'C06': ['HostSurvives', 'SoftOnceInTask'],
     'C08': ['HostSurvives', 'SignalledRunsCallback', 'TerminateStopsRefill'],
     'C09': ['HostSurvives', 'RecycleHarmless', 'LossSparesOthers', 'IdleLossHarmless', 'DiscardNoHoldUp'],
-    'C10': ['HostSurvives', 'SendFailSlot'],
+    'C10': ['HostSurvives', 'SendFailSlot', 'HardSlotBack'],
     'C11': ['HostSurvives', 'BudgetAckResets', 'BudgetStops'],
 }
 KNOWN = {'C04': [('TolImapLoss', ['LossReported'])], 'C01': [('TolImapLoss', ['LossReported'])],
@@ -47,6 +47,8 @@ def scenarios(pid, thorough):
         S.append(dict(kind='loss', procs=1, job='apply', how=['signal', 9], closing=True))
     if pid == 'C10':
         S.append(dict(kind='sendfail'))
+        S += [dict(kind='hard', procs=2, where='pool', putlocks=True),
+              dict(kind='hard', procs=2, where='job', putlocks=True, stubborn=True, leader=True)]
     if pid == 'C08':
         S += [dict(kind='signal_one', target='busy'), dict(kind='signal_one', target='idle'),
               dict(kind='term_repop')]
